@@ -228,8 +228,14 @@ def _forecast_on_lattice(c, **extra):
     return o, L, mags, D0, s
 
 
+def _directed_pairs_ter(scale):
+    from contracts.evals import _directed_pairs
+    return _directed_pairs('paired_t_test_public', scale, alpha=0.05)
+
+
 def target_rates_case(scale):
     class TER:
+        directed = staticmethod(lambda: _directed_pairs_ter(scale))
         qualname = GF + '.target_event_rates'
         case = 'lattice region (RI), equally spaced magnitude edges, scale=%s' % scale
         properties = ('C08',)
